@@ -11,6 +11,7 @@ mod c12;
 mod c13;
 mod reg;
 mod c14;
+mod c16;
 mod c17;
 mod c18;
 mod c19;
@@ -32,6 +33,7 @@ fn main() {
         "c12" => c12::main(args),
         "c13" => c13::main(args),
         "c14" => c14::main(args),
+        "c16" => c16::main(args),
         "c17" => c17::main(args),
         "c18" => c18::main(args),
         "c19" => c19::main(args),
